@@ -1,0 +1,172 @@
+//go:build verif
+
+package serializer
+
+// Round-trip lemmas for property C01 (primitive level), as Go functions that only exist under the
+// verif build tag: each writes a value with the Serializer, reads it back with the Deserializer and is
+// verified - against the contracts of the writer and reader methods, not their bodies - to return the
+// value it was given, the number of bytes written, and no error. They are never called.
+
+// verifWrapErr is the error producer used by the lemmas: it hands the error through.
+func verifWrapErr(err error) error { return err }
+
+func verifRoundTripUint32(v uint32) (uint32, int, error) {
+	b, err := NewSerializer().WriteNum(v, verifWrapErr).Serialize()
+	if err != nil {
+		return 0, 0, err
+	}
+	var out uint32
+	n, err := NewDeserializer(b).ReadNum(&out, verifWrapErr).Done()
+
+	return out, n, err
+}
+
+func verifRoundTripUint8(v uint8) (uint8, int, error) {
+	b, err := NewSerializer().WriteNum(v, verifWrapErr).Serialize()
+	if err != nil {
+		return 0, 0, err
+	}
+	var out uint8
+	n, err := NewDeserializer(b).ReadNum(&out, verifWrapErr).Done()
+
+	return out, n, err
+}
+
+func verifRoundTripUint16(v uint16) (uint16, int, error) {
+	b, err := NewSerializer().WriteNum(v, verifWrapErr).Serialize()
+	if err != nil {
+		return 0, 0, err
+	}
+	var out uint16
+	n, err := NewDeserializer(b).ReadNum(&out, verifWrapErr).Done()
+
+	return out, n, err
+}
+
+func verifRoundTripUint64(v uint64) (uint64, int, error) {
+	b, err := NewSerializer().WriteNum(v, verifWrapErr).Serialize()
+	if err != nil {
+		return 0, 0, err
+	}
+	var out uint64
+	n, err := NewDeserializer(b).ReadNum(&out, verifWrapErr).Done()
+
+	return out, n, err
+}
+
+func verifRoundTripInt8(v int8) (int8, int, error) {
+	b, err := NewSerializer().WriteNum(v, verifWrapErr).Serialize()
+	if err != nil {
+		return 0, 0, err
+	}
+	var out int8
+	n, err := NewDeserializer(b).ReadNum(&out, verifWrapErr).Done()
+
+	return out, n, err
+}
+
+func verifRoundTripInt16(v int16) (int16, int, error) {
+	b, err := NewSerializer().WriteNum(v, verifWrapErr).Serialize()
+	if err != nil {
+		return 0, 0, err
+	}
+	var out int16
+	n, err := NewDeserializer(b).ReadNum(&out, verifWrapErr).Done()
+
+	return out, n, err
+}
+
+func verifRoundTripInt32(v int32) (int32, int, error) {
+	b, err := NewSerializer().WriteNum(v, verifWrapErr).Serialize()
+	if err != nil {
+		return 0, 0, err
+	}
+	var out int32
+	n, err := NewDeserializer(b).ReadNum(&out, verifWrapErr).Done()
+
+	return out, n, err
+}
+
+func verifRoundTripInt64(v int64) (int64, int, error) {
+	b, err := NewSerializer().WriteNum(v, verifWrapErr).Serialize()
+	if err != nil {
+		return 0, 0, err
+	}
+	var out int64
+	n, err := NewDeserializer(b).ReadNum(&out, verifWrapErr).Done()
+
+	return out, n, err
+}
+
+func verifRoundTripBool(v bool) (bool, int, error) {
+	b, err := NewSerializer().WriteBool(v, verifWrapErr).Serialize()
+	if err != nil {
+		return false, 0, err
+	}
+	var out bool
+	n, err := NewDeserializer(b).ReadBool(&out, verifWrapErr).Done()
+
+	return out, n, err
+}
+
+func verifRoundTripByte(v byte) (byte, int, error) {
+	b, err := NewSerializer().WriteByte(v, verifWrapErr).Serialize()
+	if err != nil {
+		return 0, 0, err
+	}
+	var out byte
+	n, err := NewDeserializer(b).ReadByte(&out, verifWrapErr).Done()
+
+	return out, n, err
+}
+
+func verifRoundTripBytes(v []byte) ([]byte, int, error) {
+	b, err := NewSerializer().WriteBytes(v, verifWrapErr).Serialize()
+	if err != nil {
+		return nil, 0, err
+	}
+	var out []byte
+	n, err := NewDeserializer(b).ReadBytes(&out, len(v), verifWrapErr).Done()
+
+	return out, n, err
+}
+
+// a value followed by another value: the second read starts where the first ended
+func verifRoundTripPair(x uint16, y bool, z uint32) (uint16, bool, uint32, int, error) {
+	b, err := NewSerializer().WriteNum(x, verifWrapErr).WriteBool(y, verifWrapErr).WriteNum(z, verifWrapErr).Serialize()
+	if err != nil {
+		return 0, false, 0, 0, err
+	}
+	var ox uint16
+	var oy bool
+	var oz uint32
+	n, err := NewDeserializer(b).ReadNum(&ox, verifWrapErr).ReadBool(&oy, verifWrapErr).ReadNum(&oz, verifWrapErr).Done()
+
+	return ox, oy, oz, n, err
+}
+
+func verifRoundTripVarBytes(v []byte, lenType SeriLengthPrefixType, minLen, maxLen int) ([]byte, int, error) {
+	b, err := NewSerializer().WriteVariableByteSlice(v, lenType, verifWrapErr, minLen, maxLen).Serialize()
+	if err != nil {
+		return nil, 0, err
+	}
+	var out []byte
+	n, err := NewDeserializer(b).ReadVariableByteSlice(&out, lenType, verifWrapErr, minLen, maxLen).Done()
+
+	return out, n, err
+}
+
+func verifRoundTripPayloadLength(l uint32) (uint32, int, error) {
+	b, err := NewSerializer().WritePayloadLength(int(l), verifWrapErr).Serialize()
+	if err != nil {
+		return 0, 0, err
+	}
+	d := NewDeserializer(b)
+	out, err := d.ReadPayloadLength()
+	if err != nil {
+		return 0, 0, err
+	}
+	n, err := d.Done()
+
+	return out, n, err
+}
